@@ -256,7 +256,15 @@ WShadow ==
              Bn("and", Qn("forall", "j", Own("ms"), Bn(">", Fld(VarR("@j"), "n"), NumA("0"))), Bn(">", Fld(VarR("@j"), "q"), NumA("0"))),
              Bn("and", Bn("=", Fld(VarR("@j"), "n"), Own("s")), Qn("exists", "j", Own("mf"), Bn(">", Fld(VarR("@j"), "n"), NumA("0")))),
              Bn("and", Qn("forall", "j", Own("ms"), Bn(">", Fld(VarR("@j"), "n"), NumA("0"))),
-                       Qn("exists", "j", Own("xs"), Bn(">", VarR("@j"), Own("n"))))}}
+                       Qn("exists", "j", Own("xs"), Bn(">", VarR("@j"), Own("n")))),
+             \* the same PATH through the same NAME at two different types: the alias j is an Other (n: string), the bound
+             \* j an Inner (n: number); two sibling quantifiers over Inner[] and Other[] (field os)
+             Bn("and", Bn("=", Fld(VarR("@j"), "n"), StrA("$s")), Qn("exists", "j", Own("mf"), Bn(">", Fld(VarR("@j"), "n"), NumA("0")))),
+             Bn("and", Qn("exists", "j", Own("mf"), Bn(">", Fld(VarR("@j"), "n"), NumA("0"))), Bn("=", Fld(VarR("@j"), "n"), StrA("$s"))),
+             Bn("and", Qn("forall", "j", Own("ms"), Bn(">", Fld(VarR("@j"), "n"), NumA("0"))),
+                       Qn("exists", "j", Own("os"), Bn("=", Fld(VarR("@j"), "n"), StrA("$s")))),
+             Bn("or", Qn("exists", "i", Own("os"), Bn("=", Fld(VarR("@i"), "n"), StrA("$s"))),
+                      Qn("forall", "i", Own("mf"), Bn("<", Fld(VarR("@i"), "n"), Own("k"))))}}
 WAllPatterns ==
   {Prop(Scope("after", Ev("t", "A", NoPred), NoPred), Pat2(t, Ev("u", "B", Pr(c1)), Ev("u", "", Pr(c2)))) :
       t \in {"causes", "forbids", "requires"},
